@@ -136,8 +136,10 @@ def gen_WriterConsts(repo):
     if not m:
         raise T.TranslateError("ciffile.c: write_loop_start: loop header not recognised")
     loop_head = _cstring(m.group(1), "loop header")
-    m = re.search(r'u_fprintf\(CONTEXT_UFILE\(context\),\s*("(?:[^"\\]|\\.)*"),\s*\*next_name\)', ls)
-    if not m or _cstring(m.group(1), "loop name") != " %S\n":
+    # item names of a loop header: indented by one blank unless the name fills the line
+    m = re.search(r'u_fprintf\(CONTEXT_UFILE\(context\),\s*\(u_countChar32\(\*next_name,\s*-1\)\s*<\s*LINE_LENGTH\(context\)\)\s*\?\s*'
+                  r'("(?:[^"\\]|\\.)*")\s*:\s*("(?:[^"\\]|\\.)*"),\s*\*next_name\)', ls)
+    if not m or _cstring(m.group(1), "loop name") != " %S\n" or _cstring(m.group(2), "loop name (long)") != "%S\n":
         raise T.TranslateError("ciffile.c: write_loop_start: item-name format not recognised")
 
     # CIF 1.1 character set (utils.c, after preprocessing) and the size of the lookup table in ciffile.c
